@@ -10,8 +10,9 @@
 import DfModel.Mech.HashJoin
 import DfModel.Proofs.C05d
 import DfModel.Proofs.C05e
+import DfModel.Proofs.C05f
 namespace DfModel.Props.C05
-open DfModel.Mech.Join DfModel.Mech.HashJoin DfModel.Proofs.C05
+open DfModel.Mech.Join DfModel.Mech.HashJoin DfModel.Mech.Nlj DfModel.Proofs.C05
 open List
 
 /-- **Hash join refines the nested-loop spec** — for every join type, NULL-equality mode,
@@ -69,6 +70,52 @@ theorem arrayMap_agrees_with_hashMap (h : List Val → Nat) (c : Cfg) (L : List 
     obtain ⟨v, hv⟩ := he.1 l hl
     rw [hv] at hk; cases hk
   exact (hashJoin_perm .array c L he batches).trans (hashJoin_perm (.hash h) c L heh batches).symm
+
+/-! ### nested loop join, memory-limited fallback (left side processed in chunks) -/
+
+/-- **Chunked nested loop join refines the spec**: for ANY partition of the left input into chunks
+    (any memory budget), emitting per chunk the matched pairs and THAT chunk's left-side rows from a
+    fresh per-chunk bitmap, and emitting the right-side rows ONCE at the end from the bitmaps OR-ed
+    over all chunks, gives the join — all ten join types. -/
+theorem nlj_chunked_refines (c : Cfg) (chunks : List (List Row)) (R : List Row) :
+    nljChunked c chunks R ~ join c.jt c.matches c.wl c.wr chunks.flatten R :=
+  nljChunked_perm c chunks R
+
+/-- chunk boundaries are unobservable -/
+theorem nlj_chunking_irrelevant (c : Cfg) (chunks chunks' : List (List Row)) (R : List Row)
+    (h : chunks.flatten = chunks'.flatten) : nljChunked c chunks R ~ nljChunked c chunks' R :=
+  (nljChunked_perm c chunks R).trans (h ▸ (nljChunked_perm c chunks' R).symm)
+
+/-- **Defect witness (pinned upstream code, notes/C05.md).**  When the left batch that trips the
+    memory limit is the last one, `handle_buffering_left_memory_limited` goes from `BufferingLeft`
+    straight to `Done` and the global right-side emission never happens.  On the replay input
+    (Right join on column 0, left chunk of 4 rows, 4 right rows) the result is not the join. -/
+theorem nlj_memlimit_skips_global_right_witness :
+    let c : Cfg := { jt := .right, nullEq := false, kl := fun l => [l.headD none],
+                     kr := fun r => [r.headD none], flt := fun _ _ => true, wl := 2, wr := 2 }
+    let L : List Row := [[some 1, some 10], [some 2, some 20], [some 3, some 30], [some 4, some 40]]
+    let R : List Row := [[some 5, some 500], [some 7, some 700], [some 1, some 100], [some 3, some 300]]
+    nljChunkedSkippingGlobalRight c [L] R = [[some 1, some 10, some 1, some 100], [some 3, some 30, some 3, some 300]] ∧
+    ¬ (nljChunkedSkippingGlobalRight c [L] R ~ join c.jt c.matches c.wl c.wr L R) := by
+  refine ⟨by decide, ?_⟩
+  intro h
+  have := h.length_eq
+  revert this
+  decide
+
+/-- …and the part that still holds for the defective code: the join types without a right-side final
+    stage (Inner, Left, LeftSemi, LeftAnti, LeftMark) are unaffected. -/
+theorem nlj_memlimit_skips_global_right_partial (c : Cfg) (h : c.jt.needRightFinal = false)
+    (chunks : List (List Row)) (R : List Row) :
+    nljChunkedSkippingGlobalRight c chunks R ~ join c.jt c.matches c.wl c.wr chunks.flatten R := by
+  have : nljChunkedSkippingGlobalRight c chunks R = nljChunked c chunks R := by
+    unfold nljChunked nljChunkedSkippingGlobalRight
+    have hr : (fun r => rightEmit c (globalRightMatched c chunks r) r) = fun _ => [] := by
+      funext r
+      cases hjt : c.jt <;> simp_all [rightEmit, JoinType.needRightFinal]
+    rw [hr, flatMap_nil', append_nil]
+  rw [this]
+  exact nljChunked_perm c chunks R
 
 /-! ### the `JoinType` decision tables the operators consult are exactly right -/
 
